@@ -25,7 +25,102 @@ Check (C11_closed_on_user_close :
     forallb prompt_op ops = true -> In x (fst (run c init ops)) ->
     ps (fst (fst x)) p = Some (Open k) ->
     step c (fst (fst x)) (CmdClose p) = Some (s', ev, calls) -> In (UClosed p) ev).
+Check (C11_no_stuck :
+  forall (c : cfg) (ops : list op), snd (run c init ops) = true).
+Check (C11_no_stuck_feasible :
+  forall (c : cfg) (ops : list op), feasible c init ops = true -> snd (run c init ops) = true).
+Check (C11_guards_are_the_environment :
+  forall (c : cfg) (s : st) (o : op), enabled s o = false -> main_handler c s o = Some (s, [], [])).
+Check (C11_no_stuck_needs_environment_refuted :
+  exists (c : cfg) (ops : list op) (p : peer),
+    conn (last_state c ops) p = true /\ on_established c (last_state c ops) p = None).
+Check (C11_isolation :
+  forall (c : cfg) (s : st) (o : op) (s' : st) (ev : list uev) (cl : list call),
+    reachable c s -> step c s o = Some (s', ev, cl) -> iso s s' (op_peer o) ev cl).
+Check (C11_runs_are_reachable :
+  forall (c : cfg) (ops : list op) (x : st * list uev * list call),
+    In x (fst (run c init ops)) -> reachable c (fst (fst x))).
+Check (C11_accepted_only_by_accept :
+  forall (c : cfg) (s : st) (o : op) (s' : st) (ev : list uev) (cl : list call) (q : peer),
+    step c s o = Some (s', ev, cl) -> acc_inb (ps s' q) = true -> acc_inb (ps s q) = false ->
+    is_accept c s o q = true).
+Check (C11_inbound_needs_accept :
+  forall (c : cfg) (pre : list op) (s : st) (o : op) (s' : st) (ev : list uev) (cl : list call)
+         (p : peer) (d : dir),
+    exec c init pre = Some s -> step c s o = Some (s', ev, cl) -> In (UOpened p d) ev ->
+    exists pre1 a pre2 s1,
+      pre = pre1 ++ a :: pre2 /\ exec c init pre1 = Some s1 /\ is_accept c s1 a p = true).
+Check (C11_open_answered :
+  forall (c : cfg) (ops : list op) (s : st) (owed : peer -> bool),
+    ledger_env c init ops = true -> ledger c init (fun _ => false) ops = Some (s, owed) ->
+    forall p, owed p = true -> in_progress (ps s p) = true /\ obligation s p = true).
+Check (C11_quiescent_nothing_owed :
+  forall (c : cfg) (ops : list op) (s : st) (owed : peer -> bool) (p : peer),
+    ledger_env c init ops = true -> ledger c init (fun _ => false) ops = Some (s, owed) ->
+    obligation s p = false -> owed p = false).
+Check (C11_at_most_one_answer :
+  forall (c : cfg) (s : st) (o : op) (s' : st) (ev : list uev) (cl : list call) (q : peer),
+    step c s o = Some (s', ev, cl) -> (length (answers q ev) <= 1)%nat).
 Check (C11_open_answered_refuted :
-  exists (c : cfg) (ops : list op),
-    ps (last_state c ops) 0 = Some (OutInit 0) /\ spend (last_state c ops) = [] /\
-    last ops (Timer 0) = CmdOpen 0).
+  exists (c : cfg) (ops : list op) (s : st) (owed : peer -> bool),
+    ledger c init (fun _ => false) ops = Some (s, owed) /\ owed 0 = true /\ obligation s 0 = false).
+Check (C11_open_answered_class3_refuted :
+  exists (c : cfg) (ops : list op) (s : st) (owed : peer -> bool),
+    ledger c init (fun _ => false) ops = Some (s, owed) /\ owed 0 = true /\ in_progress (ps s 0) = false).
+Check (C11_send_gate :
+  forall (c : cfg) (s : st) (o : op) (s' : st) (ev : list uev) (cl : list call) (q : peer) (k m : N),
+    reachable c s -> step c s o = Some (s', ev, cl) -> In (CWire q k m) cl ->
+    send_sink s o = Some (q, k, m) /\ running s k = true /\
+    (exists t, find_task k (tasks s) = Some t /\ t_peer t = q) /\
+    match o with
+    | SendSync _ _ | SendAsync _ _ => hopen s q = true /\ hsink s q = Some k
+    | _ => usink s q = Some k
+    end).
+Check (C11_send_gate_closed :
+  forall (c : cfg) (s : st) (p : peer) (m : N) (a : bool) (s' : st) (ev : list uev) (cl : list call),
+    reachable c s -> hopen s p = false ->
+    step c s (if a then SendAsync p m else SendSync p m) = Some (s', ev, cl) ->
+    cl = [CRet p (if a then R_NOPEER else R_OK)] /\ ev = [] /\ ps s' = ps s /\ tasks s' = tasks s).
+Check (C11_stale_sink_errors :
+  forall (c : cfg) (s : st) (p : peer) (k m : N) (a : bool) (s' : st) (ev : list uev) (cl : list call),
+    usink s p = Some k -> find_task k (tasks s) = None ->
+    step c s (if a then SinkAsync p m else SinkSync p m) = Some (s', ev, cl) ->
+    cl = [CRet p (if a then R_NOPEER else R_NOCONN)] /\ ev = [] /\ ps s' = ps s /\ tasks s' = tasks s).
+Check (C11_timers_fire_once :
+  forall (c : cfg) (s : st) (o : op) (s' : st) (ev : list uev) (cl : list call),
+    step c s o = Some (s', ev, cl) -> timers_spec s o s').
+Check (C11_waiting_attempt_has_timer :
+  forall (c : cfg) (s : st) (p : peer),
+    reachable c s -> waiting (ps s p) = true -> existsb (N.eqb p) (timers s) = true).
+Check (C11_timer_only_cancels_waiting :
+  forall (c : cfg) (s : st) (p : peer) (s' : st) (ev : list uev) (cl : list call),
+    waiting (ps s p) = false -> step c s (Timer p) = Some (s', ev, cl) ->
+    ev = [] /\ cl = [] /\ ps s' = ps s /\ tasks s' = tasks s /\ hopen s' = hopen s).
+Check (C11_no_stale_timer_kill :
+  forall (c : cfg) (s : st) (p : peer) (k : N) (s' : st) (ev : list uev) (cl : list call),
+    ps s p = Some (Open k) -> step c s (Timer p) = Some (s', ev, cl) ->
+    ev = [] /\ cl = [] /\ ps s' = ps s /\ tasks s' = tasks s /\ hopen s' = hopen s).
+Check (C11_stale_timer_cancels_newer_attempt_refuted :
+  exists s1 s2 s3 ev cl,
+    exec cfg_wt init w_stale_pre = Some s1 /\ ps s1 0 = Some (Closed None) /\ timers s1 = [0] /\
+    exec cfg_wt s1 w_stale_post = Some s2 /\ waiting (ps s2 0) = true /\ timers s2 = [0; 0] /\
+    step cfg_wt s2 (Timer 0) = Some (s3, ev, cl) /\ ev = [UFail 0 E_REJECTED] /\ cl = [CForce 0] /\
+    timers s3 = [0]).
+Check (C11_lazy_no_stuck :
+  forall (c : cfg) (cap : nat) (gs : list lop), snd (lrun c cap linit gs) = true).
+Check (C11_event_channel_no_loss :
+  forall (c : cfg) (cap : nat) (gs : list lop),
+    ltaken_run c cap linit gs ++ lq (lfinal c cap linit gs) = lemitted_run c cap linit gs).
+Check (C11_event_channel_step :
+  forall (c : cfg) (cap : nat) (l : lst) (g : lop) (l' : lst) (ev : list uev) (cl : list call),
+    lstep c cap l g = Some (l', ev, cl) ->
+    ltaken l g ++ lq l' = lq l ++ lemitted c cap l g /\ (ltaken l g <> [] -> ev = ltaken l g)).
+Check (C11_poll_delivers_oldest :
+  forall (c : cfg) (cap : nat) (l : lst) (e : uev) (rest : list uev),
+    lq l = e :: rest -> exists l' cl, lstep c cap l LPoll = Some (l', [e], cl)).
+Check (C11_capacity_only_delays :
+  forall (c : cfg) (cap1 cap2 : nat) (gs : list lop),
+    never_blocked c cap1 linit gs = true -> never_blocked c cap2 linit gs = true ->
+    map (fun x => (lcore (fst (fst x)), snd (fst x))) (fst (lrun c cap1 linit gs)) =
+    map (fun x => (lcore (fst (fst x)), snd (fst x))) (fst (lrun c cap2 linit gs)) /\
+    snd (lrun c cap1 linit gs) = snd (lrun c cap2 linit gs)).
